@@ -25,7 +25,8 @@ from vlib.main import Xh
 RULES = ["python:S0", "python:S1"]
 FILES = [Path("a.py"), Path("b.py")]
 N = tier(2, 3)  # results per set
-NB = tier(1, 2)  # second operand of the three-set accumulation
+NB = tier(1, 1)  # second operand of the three-set accumulation
+N2 = 2  # second operand of the two-set obligations (the first one grows to 3 in the thorough tier)
 
 # warm-up (pydantic validators are built lazily; CrossHair needs determinism)
 Finding(id="x", rule=Rule(id="x", name="x", url=None))
@@ -117,7 +118,7 @@ def spec_items(*key_lists) -> list:
 
 def merge_or(a: List[Item], b: List[Item]) -> bool:
     """ResultSet `|` is the multiset union of its operands (any overlap of rule ids / files).
-    pre: len(a) <= N and len(b) <= N
+    pre: len(a) <= N and len(b) <= N2
     post: _
     """
     a, b = keys(a), keys(b)
@@ -151,7 +152,7 @@ def merge_ior(a: List[Item], b: List[Item], c: List[Item]) -> bool:
 
 def merge_order_independent(a: List[Item], b: List[Item]) -> bool:
     """Combining files in either order yields the same multiset (both operator forms).
-    pre: len(a) <= N and len(b) <= N
+    pre: len(a) <= N and len(b) <= N2
     post: _
     """
     a, b = keys(a), keys(b)
@@ -173,7 +174,7 @@ def _loader_stub(table):
 
 def process_loops_sonar(a: List[Item], b: List[Item]) -> bool:
     """process_sonar_findings over two result files keeps every finding (see process_loops).
-    pre: len(a) <= N and len(b) <= N
+    pre: len(a) <= N and len(b) <= N2
     post: _
     """
     return process_loops(a, b, 0)
@@ -181,7 +182,7 @@ def process_loops_sonar(a: List[Item], b: List[Item]) -> bool:
 
 def process_loops_semgrep(a: List[Item], b: List[Item]) -> bool:
     """process_semgrep_findings over two result files keeps every finding.
-    pre: len(a) <= N and len(b) <= N
+    pre: len(a) <= N and len(b) <= N2
     post: _
     """
     return process_loops(a, b, 1)
@@ -189,7 +190,7 @@ def process_loops_semgrep(a: List[Item], b: List[Item]) -> bool:
 
 def process_loops_codeql(a: List[Item], b: List[Item]) -> bool:
     """process_codeql_findings over two result files keeps every finding.
-    pre: len(a) <= N and len(b) <= N
+    pre: len(a) <= N and len(b) <= N2
     post: _
     """
     return process_loops(a, b, 2)
@@ -197,7 +198,7 @@ def process_loops_codeql(a: List[Item], b: List[Item]) -> bool:
 
 def process_loops_defectdojo(a: List[Item], b: List[Item]) -> bool:
     """defectdojo._process_results over two result files keeps every finding.
-    pre: len(a) <= N and len(b) <= N
+    pre: len(a) <= N and len(b) <= N2
     post: _
     """
     return process_loops(a, b, 3)
@@ -551,7 +552,7 @@ SPEC = {
     ],
     "bounds": {
         "quick": "<= 2 results per result set, <= 3 sets per merge; rule ids and files are selectors into pools of 2 (every overlap pattern); line/column ints unbounded; <= 2 entries per JSON/SARIF document",
-        "thorough": "<= 3 results per result set, otherwise as quick",
+        "thorough": "first operand <= 3 results, second operand <= 2, otherwise as quick",
     },
     "assumptions": [
         "one location per result (a result with several locations is indexed once per location by design)",
